@@ -115,6 +115,26 @@ impl<S: Clone + Debug> SymbolTable<S> {
         }
     }
 
+    /// Would exporting 'to_export_nx' as 'new_path' (relative to 'new_parent_nx') put the symbol below itself?
+    /// (e.g. `.import a as x, a.b as x.b.c`: 'x.b' already is 'a.b')
+    pub fn export_contains_itself<I: Into<IdentifierPath>>(
+        &self,
+        to_export_nx: SymbolIndex,
+        new_parent_nx: SymbolIndex,
+        new_path: I,
+    ) -> bool {
+        let (mut new_path, _) = new_path.into().split();
+        // Follow the part of the path that already exists: anything further down would be created below it
+        let mut nx = new_parent_nx;
+        while let Some(id) = new_path.pop_front() {
+            match self.child(nx, &id) {
+                Some(child_nx) => nx = child_nx,
+                None => break,
+            }
+        }
+        petgraph::algo::has_path_connecting(&self.graph, to_export_nx, nx, None)
+    }
+
     pub fn remove(&mut self, nx: SymbolIndex) {
         log::trace!("Removing node: {:?}", nx);
         self.graph.remove_node(nx);
